@@ -50,6 +50,7 @@ class BlockPartition(object):
         # Store attributes
         self.d = d
         self.list_of_constraints = list()
+        self._list_of_partition_constraints = list()
         self.blocks_dict = dict()
         self.counter = BlockPartition.counter
 
@@ -122,9 +123,20 @@ class BlockPartition(object):
         """
         Formulate the list of orthogonality constraints induced by the partitioning.
 
+        This method is run by the :class:`PEP` each time the problem is solved.
+        The orthogonality constraints formulated by a previous call are therefore removed first
+        (the other constraints of `list_of_constraints` are kept).
+
         """
+        previous_partition_constraints = {id(constraint) for constraint in self._list_of_partition_constraints}
+        self.list_of_constraints = [constraint for constraint in self.list_of_constraints
+                                    if id(constraint) not in previous_partition_constraints]
+        self._list_of_partition_constraints = list()
+
         for xi_decomposed in self.blocks_dict.values():
             for xj_decomposed in self.blocks_dict.values():
                 for k in range(self.d):
                     for l in range(k):
-                        self.add_constraint(xi_decomposed[k] * xj_decomposed[l] == 0)
+                        constraint = (xi_decomposed[k] * xj_decomposed[l] == 0)
+                        self._list_of_partition_constraints.append(constraint)
+                        self.add_constraint(constraint)
